@@ -10,7 +10,8 @@ class C08(HistCheck):
     ORACLES = (hist.oracle_c08,)
     RULE = ("all algorithms driven by ask-and-tell for 4 generations on constrained problems whose feasible region is reached immediately / late / never "
             "(constraint shift -5, 0, 0.5, 3) and on unconstrained ones; algorithm.opt after every tell is compared with the model's _set_optimum applied to the model's "
-            "population and rank attributes, and judged by an independent oracle (feasible, non-dominated, complete); distinct by hash")
+            "population and rank attributes, and judged by an independent oracle (feasible, non-dominated, complete); distinct by hash"
+            "; 30% of NSDE/GDE3 cases use the algorithm's default survival object, 30% of all cases run after a default-constructed algorithm of the same class was stepped on another (constrained <-> unconstrained) problem in the same process")
     ASSUMPTIONS = ["NSDE-R takes its optimum from pymoo's survival: judged by the oracle only"]
 
 
